@@ -154,17 +154,25 @@ func loadRegistry() *Registry {
 }
 
 func loadKnown() []KnownFinding {
-	b, err := os.ReadFile(filepath.Join(verifDir, "known-findings.json"))
-	if err != nil {
-		return nil
+	var out []KnownFinding
+	files := []string{filepath.Join(verifDir, "known-findings.json")}
+	more, _ := filepath.Glob(filepath.Join(verifDir, "known-findings.d", "*.json"))
+	sort.Strings(more)
+	files = append(files, more...)
+	for _, fn := range files {
+		b, err := os.ReadFile(fn)
+		if err != nil {
+			continue
+		}
+		var f struct {
+			Findings []KnownFinding `json:"findings"`
+		}
+		if err := json.Unmarshal(b, &f); err != nil {
+			fatal("%s: %v", fn, err)
+		}
+		out = append(out, f.Findings...)
 	}
-	var f struct {
-		Findings []KnownFinding `json:"findings"`
-	}
-	if err := json.Unmarshal(b, &f); err != nil {
-		fatal("known-findings.json: %v", err)
-	}
-	return f.Findings
+	return out
 }
 
 func fatal(f string, a ...interface{}) {
